@@ -15,11 +15,14 @@ Slots == 0..(NSlots-1)
 HASNEXT == 1
 INUSED == 2
 
+CONSTANT MaxLinks    \* bound on message-link operations per thread (0 switches the chain operations off)
 VARIABLES head, tail, size, nxt, flag, counter,   \* shared memory
           pc, oh, nx, it, ot, fb, buf, held, ops,  \* thread-local: program counter and registers
+          ca, cnext, nlinks,                        \* chain walk (recycleBuffers): current slot, next slot (-1 none); links made
+          mnext,                                    \* ghost: message links made by holders (bufferSlice.update), -1 = none
           stale, aba, foreign                       \* ghosts: ABA classifier, foreign-write detector
 shared == <<head, tail, size, nxt, flag, counter>>
-locals == <<pc, oh, nx, it, ot, fb, buf, held, ops>>
+locals == <<pc, oh, nx, it, ot, fb, buf, held, ops, ca, cnext, nlinks, mnext>>
 ghosts == <<stale, aba, foreign>>
 vars == <<shared, locals, ghosts>>
 
@@ -34,6 +37,8 @@ Init == /\ head = 0 /\ tail = NSlots-1 /\ size = NSlots /\ counter = 0
         /\ it = [t \in Threads |-> 0] /\ ot = [t \in Threads |-> 0]
         /\ fb = [t \in Threads |-> 0] /\ buf = [t \in Threads |-> 0]
         /\ held = [t \in Threads |-> {}] /\ ops = [t \in Threads |-> 0]
+        /\ ca = [t \in Threads |-> 0] /\ cnext = [t \in Threads |-> -1] /\ nlinks = [t \in Threads |-> 0]
+        /\ mnext = [s \in Slots |-> -1]
         /\ stale = [t \in Threads |-> FALSE] /\ aba = FALSE /\ foreign = FALSE
 
 Goto(t, l) == pc' = [pc EXCEPT ![t] = l]
@@ -52,24 +57,24 @@ PopStart(t) ==   \* bufferList.pop:LoadUint32#1   oldHead := load(head)
     /\ ops' = [ops EXCEPT ![t] = @ + 1]
     /\ stale' = [stale EXCEPT ![t] = FALSE]
     /\ Goto(t, "p_dec")
-    /\ UNCHANGED <<shared, nx, ot, fb, buf, held, aba, foreign>>
+    /\ UNCHANGED <<shared, nx, ot, fb, buf, held, aba, foreign, ca, cnext, nlinks, mnext>>
 PDec(t) ==       \* bufferList.pop:AddInt32#2     remain := add(size,-1)
     /\ pc[t] = "p_dec"
     /\ size' = size - 1
     /\ IF size - 1 <= 0 THEN Goto(t, "p_restoreA") ELSE Goto(t, "p_flag")
-    /\ UNCHANGED <<head, tail, nxt, flag, counter, oh, nx, it, ot, fb, buf, held, ops, ghosts>>
+    /\ UNCHANGED <<head, tail, nxt, flag, counter, oh, nx, it, ot, fb, buf, held, ops, ghosts, ca, cnext, nlinks, mnext>>
 PRestoreA(t) ==  \* bufferList.pop:AddInt32#3
     /\ pc[t] = "p_restoreA" /\ size' = size + 1 /\ Goto(t, "idle")
-    /\ UNCHANGED <<head, tail, nxt, flag, counter, oh, nx, it, ot, fb, buf, held, ops, ghosts>>
+    /\ UNCHANGED <<head, tail, nxt, flag, counter, oh, nx, it, ot, fb, buf, held, ops, ghosts, ca, cnext, nlinks, mnext>>
 PFlag(t) ==      \* bufferHeader.hasNext:mem#1    bh.hasNext()
     /\ pc[t] = "p_flag"
     /\ IF HasNext(flag[oh[t]]) THEN Goto(t, "p_next") ELSE Goto(t, "p_size")
-    /\ UNCHANGED <<shared, oh, nx, it, ot, fb, buf, held, ops, ghosts>>
+    /\ UNCHANGED <<shared, oh, nx, it, ot, fb, buf, held, ops, ghosts, ca, cnext, nlinks, mnext>>
 PNext(t) ==      \* bufferHeader.nextBufferOffset:mem#1  (argument of the CAS, evaluated before it)
     /\ pc[t] = "p_next"
     /\ nx' = [nx EXCEPT ![t] = nxt[oh[t]]]
     /\ Goto(t, "p_cas")
-    /\ UNCHANGED <<shared, oh, it, ot, fb, buf, held, ops, ghosts>>
+    /\ UNCHANGED <<shared, oh, it, ot, fb, buf, held, ops, ghosts, ca, cnext, nlinks, mnext>>
 PCas(t) ==       \* bufferList.pop:CompareAndSwapUint32#4
     /\ pc[t] = "p_cas"
     /\ IF head = oh[t]
@@ -77,94 +82,147 @@ PCas(t) ==       \* bufferList.pop:CompareAndSwapUint32#4
               /\ aba' = (aba \/ stale[t])
               /\ stale' = [u \in Threads |-> IF u = t THEN FALSE ELSE TRUE]
          ELSE /\ head' = head /\ Goto(t, "p_reload") /\ UNCHANGED <<aba, stale>>
-    /\ UNCHANGED <<tail, size, nxt, flag, counter, oh, nx, it, ot, fb, buf, held, ops, foreign>>
+    /\ UNCHANGED <<tail, size, nxt, flag, counter, oh, nx, it, ot, fb, buf, held, ops, foreign, ca, cnext, nlinks, mnext>>
 PClr(t) ==       \* bufferHeader.clearFlag:mem#1
     /\ pc[t] = "p_clr"
     /\ flag' = [flag EXCEPT ![oh[t]] = 0]
     /\ foreign' = (foreign \/ Foreign(t, oh[t]))
     /\ Goto(t, "p_iu_ld")
-    /\ UNCHANGED <<head, tail, size, nxt, counter, oh, nx, it, ot, fb, buf, held, ops, stale, aba>>
+    /\ UNCHANGED <<head, tail, size, nxt, counter, oh, nx, it, ot, fb, buf, held, ops, stale, aba, ca, cnext, nlinks, mnext>>
 PIuLd(t) ==      \* bufferHeader.setInUsed:rmw-load#1
     /\ pc[t] = "p_iu_ld"
     /\ fb' = [fb EXCEPT ![t] = flag[oh[t]]]
     /\ Goto(t, "p_iu_st")
-    /\ UNCHANGED <<shared, oh, nx, it, ot, buf, held, ops, ghosts>>
+    /\ UNCHANGED <<shared, oh, nx, it, ot, buf, held, ops, ghosts, ca, cnext, nlinks, mnext>>
 PIuSt(t) ==      \* bufferHeader.setInUsed:rmw-store#2
     /\ pc[t] = "p_iu_st"
     /\ flag' = [flag EXCEPT ![oh[t]] = SetBit(fb[t], INUSED)]
     /\ foreign' = (foreign \/ Foreign(t, oh[t]))
     /\ Goto(t, "p_cnt")
-    /\ UNCHANGED <<head, tail, size, nxt, counter, oh, nx, it, ot, fb, buf, held, ops, stale, aba>>
+    /\ UNCHANGED <<head, tail, size, nxt, counter, oh, nx, it, ot, fb, buf, held, ops, stale, aba, ca, cnext, nlinks, mnext>>
 PCnt(t) ==       \* bufferList.pop:AddInt32#5     add(counter, 1)
     /\ pc[t] = "p_cnt" /\ counter' = counter + 1 /\ Goto(t, "p_cap")
-    /\ UNCHANGED <<head, tail, size, nxt, flag, oh, nx, it, ot, fb, buf, held, ops, ghosts>>
+    /\ UNCHANGED <<head, tail, size, nxt, flag, oh, nx, it, ot, fb, buf, held, ops, ghosts, ca, cnext, nlinks, mnext>>
 PCap(t) ==       \* bufferList.pop:mem#6          *b.capPerBuffer, then return the slice
     /\ pc[t] = "p_cap"
     /\ held' = [held EXCEPT ![t] = @ \cup {oh[t]}]
     /\ Goto(t, "idle")
-    /\ UNCHANGED <<shared, oh, nx, it, ot, fb, buf, ops, ghosts>>
+    /\ UNCHANGED <<shared, oh, nx, it, ot, fb, buf, ops, ghosts, ca, cnext, nlinks, mnext>>
 PSize(t) ==      \* bufferList.pop:mem#7          *b.size <= 1 ("don't alloc the last slice")
     /\ pc[t] = "p_size"
     /\ IF size <= 1 THEN Goto(t, "p_restoreB") ELSE Goto(t, "p_reload")
-    /\ UNCHANGED <<shared, oh, nx, it, ot, fb, buf, held, ops, ghosts>>
+    /\ UNCHANGED <<shared, oh, nx, it, ot, fb, buf, held, ops, ghosts, ca, cnext, nlinks, mnext>>
 PRestoreB(t) ==  \* bufferList.pop:AddInt32#8
     /\ pc[t] = "p_restoreB" /\ size' = size + 1 /\ Goto(t, "idle")
-    /\ UNCHANGED <<head, tail, nxt, flag, counter, oh, nx, it, ot, fb, buf, held, ops, ghosts>>
+    /\ UNCHANGED <<head, tail, nxt, flag, counter, oh, nx, it, ot, fb, buf, held, ops, ghosts, ca, cnext, nlinks, mnext>>
 PReload(t) ==    \* bufferList.pop:LoadUint32#9   oldHead = load(head); i++
     /\ pc[t] = "p_reload"
     /\ oh' = [oh EXCEPT ![t] = head]
     /\ it' = [it EXCEPT ![t] = @ + 1]
     /\ stale' = [stale EXCEPT ![t] = FALSE]
     /\ IF it[t] + 1 >= MaxRetry THEN Goto(t, "p_restoreC") ELSE Goto(t, "p_flag")
-    /\ UNCHANGED <<shared, nx, ot, fb, buf, held, ops, aba, foreign>>
+    /\ UNCHANGED <<shared, nx, ot, fb, buf, held, ops, aba, foreign, ca, cnext, nlinks, mnext>>
 PRestoreC(t) ==  \* bufferList.pop:AddInt32#10
     /\ pc[t] = "p_restoreC" /\ size' = size + 1 /\ Goto(t, "idle")
-    /\ UNCHANGED <<head, tail, nxt, flag, counter, oh, nx, it, ot, fb, buf, held, ops, ghosts>>
+    /\ UNCHANGED <<head, tail, nxt, flag, counter, oh, nx, it, ot, fb, buf, held, ops, ghosts, ca, cnext, nlinks, mnext>>
 
 -----------------------------------------------------------------------------
+HasPred(s) == \E q \in Slots : mnext[q] = s
 \* push(b): buffer.reset() [its two plain stores to the size/start words of the holder's own header are not modelled],
 PushStart(t) ==  \* bufferHeader.clearFlag:mem#1  (inside reset())
     /\ pc[t] = "idle" /\ held[t] # {}
     /\ \E b \in held[t] :
+         /\ ~HasPred(b)          \* a buffer inside a message chain is recycled after its predecessors (reader order)
          /\ buf' = [buf EXCEPT ![t] = b]
          /\ held' = [held EXCEPT ![t] = @ \ {b}]
          /\ flag' = [flag EXCEPT ![b] = 0]
          /\ foreign' = (foreign \/ Foreign(t, b))
+         /\ mnext' = [mnext EXCEPT ![b] = -1]
     /\ Goto(t, "u_lt")
-    /\ UNCHANGED <<head, tail, size, nxt, counter, oh, nx, it, ot, fb, ops, stale, aba>>
+    /\ UNCHANGED <<head, tail, size, nxt, counter, oh, nx, it, ot, fb, ops, stale, aba, ca, cnext, nlinks>>
 ULoadTail(t) ==  \* bufferList.push:LoadUint32#1
     /\ pc[t] = "u_lt" /\ ot' = [ot EXCEPT ![t] = tail] /\ Goto(t, "u_cas")
-    /\ UNCHANGED <<shared, oh, nx, it, fb, buf, held, ops, ghosts>>
+    /\ UNCHANGED <<shared, oh, nx, it, fb, buf, held, ops, ghosts, ca, cnext, nlinks, mnext>>
 UCas(t) ==       \* bufferList.push:CompareAndSwapUint32#2
     /\ pc[t] = "u_cas"
     /\ IF tail = ot[t] THEN tail' = buf[t] /\ Goto(t, "u_link")
                        ELSE tail' = tail /\ Goto(t, "u_lt")
-    /\ UNCHANGED <<head, size, nxt, flag, counter, oh, nx, it, ot, fb, buf, held, ops, ghosts>>
+    /\ UNCHANGED <<head, size, nxt, flag, counter, oh, nx, it, ot, fb, buf, held, ops, ghosts, ca, cnext, nlinks, mnext>>
 ULink(t) ==      \* bufferHeader.linkNext:mem#1   next(oldTail) = newTail
     /\ pc[t] = "u_link"
     /\ nxt' = [nxt EXCEPT ![ot[t]] = buf[t]]
     /\ foreign' = (foreign \/ Foreign(t, ot[t]))
     /\ Goto(t, "u_fl_ld")
-    /\ UNCHANGED <<head, tail, size, flag, counter, oh, nx, it, ot, fb, buf, held, ops, stale, aba>>
+    /\ UNCHANGED <<head, tail, size, flag, counter, oh, nx, it, ot, fb, buf, held, ops, stale, aba, ca, cnext, nlinks, mnext>>
 UFlLd(t) ==      \* bufferHeader.linkNext:rmw-load#2
     /\ pc[t] = "u_fl_ld" /\ fb' = [fb EXCEPT ![t] = flag[ot[t]]] /\ Goto(t, "u_fl_st")
-    /\ UNCHANGED <<shared, oh, nx, it, ot, buf, held, ops, ghosts>>
+    /\ UNCHANGED <<shared, oh, nx, it, ot, buf, held, ops, ghosts, ca, cnext, nlinks, mnext>>
 UFlSt(t) ==      \* bufferHeader.linkNext:rmw-store#3
     /\ pc[t] = "u_fl_st"
     /\ flag' = [flag EXCEPT ![ot[t]] = SetBit(fb[t], HASNEXT)]
     /\ foreign' = (foreign \/ Foreign(t, ot[t]))
     /\ Goto(t, "u_sz")
-    /\ UNCHANGED <<head, tail, size, nxt, counter, oh, nx, it, ot, fb, buf, held, ops, stale, aba>>
+    /\ UNCHANGED <<head, tail, size, nxt, counter, oh, nx, it, ot, fb, buf, held, ops, stale, aba, ca, cnext, nlinks, mnext>>
 USize(t) ==      \* bufferList.push:AddInt32#3
     /\ pc[t] = "u_sz" /\ size' = size + 1 /\ Goto(t, "u_cnt")
-    /\ UNCHANGED <<head, tail, nxt, flag, counter, oh, nx, it, ot, fb, buf, held, ops, ghosts>>
-UCnt(t) ==       \* bufferList.push:AddInt32#4
-    /\ pc[t] = "u_cnt" /\ counter' = counter - 1 /\ Goto(t, "idle")
-    /\ UNCHANGED <<head, tail, size, nxt, flag, oh, nx, it, ot, fb, buf, held, ops, ghosts>>
+    /\ UNCHANGED <<head, tail, nxt, flag, counter, oh, nx, it, ot, fb, buf, held, ops, ghosts, ca, cnext, nlinks, mnext>>
+UCnt(t) ==       \* bufferList.push:AddInt32#4 ; inside recycleBuffers the walk goes on with the slot read before the push
+    /\ pc[t] = "u_cnt" /\ counter' = counter - 1
+    /\ IF cnext[t] = -1 THEN Goto(t, "idle") /\ UNCHANGED <<ca, cnext>>
+                        ELSE Goto(t, "c_flag") /\ ca' = [ca EXCEPT ![t] = cnext[t]] /\ cnext' = [cnext EXCEPT ![t] = -1]
+    /\ UNCHANGED <<head, tail, size, nxt, flag, oh, nx, it, ot, fb, buf, held, ops, ghosts, nlinks, mnext>>
+
+-----------------------------------------------------------------------------
+\* message chains. A holder links two of its buffers (bufferSlice.update -> linkNext, done by linkedBuffer.done()),
+\* and a whole chain is recycled by bufferManager.recycleBuffers: read hasNext / next of the current slice, push it, go on.
+LinkStart(t) ==  \* bufferHeader.linkNext:mem#1   next(a) = offset of b   (a, b held by t; b a single buffer, a a chain tail)
+    /\ pc[t] = "idle" /\ nlinks[t] < MaxLinks
+    /\ \E a, b \in held[t] :
+         /\ a # b /\ mnext[a] = -1 /\ mnext[b] = -1 /\ ~HasPred(b)
+         /\ nxt' = [nxt EXCEPT ![a] = b] /\ mnext' = [mnext EXCEPT ![a] = b]
+         /\ buf' = [buf EXCEPT ![t] = a]
+         /\ foreign' = (foreign \/ Foreign(t, a))
+    /\ nlinks' = [nlinks EXCEPT ![t] = @ + 1]
+    /\ Goto(t, "l_fl_ld")
+    /\ UNCHANGED <<head, tail, size, flag, counter, oh, nx, it, ot, fb, held, ops, ca, cnext, stale, aba>>
+LFlLd(t) ==      \* bufferHeader.linkNext:rmw-load#2
+    /\ pc[t] = "l_fl_ld" /\ fb' = [fb EXCEPT ![t] = flag[buf[t]]] /\ Goto(t, "l_fl_st")
+    /\ UNCHANGED <<shared, oh, nx, it, ot, buf, held, ops, ghosts, ca, cnext, nlinks, mnext>>
+LFlSt(t) ==      \* bufferHeader.linkNext:rmw-store#3
+    /\ pc[t] = "l_fl_st"
+    /\ flag' = [flag EXCEPT ![buf[t]] = SetBit(fb[t], HASNEXT)]
+    /\ foreign' = (foreign \/ Foreign(t, buf[t]))
+    /\ Goto(t, "idle")
+    /\ UNCHANGED <<head, tail, size, nxt, counter, oh, nx, it, ot, fb, buf, held, ops, stale, aba, ca, cnext, nlinks, mnext>>
+ChainStart(t) == \* bufferHeader.hasNext:mem#1 on the head of a chain held by t (recycleBuffers)
+    /\ pc[t] = "idle"
+    /\ \E a \in held[t] :
+         /\ ~HasPred(a) /\ mnext[a] # -1
+         /\ ca' = [ca EXCEPT ![t] = a]
+         /\ IF HasNext(flag[a]) THEN Goto(t, "c_next") ELSE Goto(t, "c_push")
+    /\ cnext' = [cnext EXCEPT ![t] = -1]
+    /\ UNCHANGED <<shared, oh, nx, it, ot, fb, buf, held, ops, ghosts, nlinks, mnext>>
+CFlag(t) ==      \* bufferHeader.hasNext:mem#1 on the next slice of the chain
+    /\ pc[t] = "c_flag"
+    /\ IF HasNext(flag[ca[t]]) THEN Goto(t, "c_next") ELSE Goto(t, "c_push")
+    /\ UNCHANGED <<shared, oh, nx, it, ot, fb, buf, held, ops, ghosts, ca, cnext, nlinks, mnext>>
+CNext(t) ==      \* bufferHeader.nextBufferOffset:mem#1   read BEFORE the slice is recycled
+    /\ pc[t] = "c_next" /\ cnext' = [cnext EXCEPT ![t] = nxt[ca[t]]] /\ Goto(t, "c_push")
+    /\ UNCHANGED <<shared, oh, nx, it, ot, fb, buf, held, ops, ghosts, ca, nlinks, mnext>>
+CPush(t) ==      \* bufferHeader.clearFlag:mem#1 (reset() of the push of the current slice)
+    /\ pc[t] = "c_push"
+    /\ buf' = [buf EXCEPT ![t] = ca[t]]
+    /\ held' = [held EXCEPT ![t] = @ \ {ca[t]}]
+    /\ flag' = [flag EXCEPT ![ca[t]] = 0]
+    /\ foreign' = (foreign \/ Foreign(t, ca[t]))
+    /\ mnext' = [mnext EXCEPT ![ca[t]] = -1]
+    /\ Goto(t, "u_lt")
+    /\ UNCHANGED <<head, tail, size, nxt, counter, oh, nx, it, ot, fb, ops, stale, aba, ca, cnext, nlinks>>
 
 Step(t) == \/ PopStart(t) \/ PDec(t) \/ PRestoreA(t) \/ PFlag(t) \/ PNext(t) \/ PCas(t) \/ PClr(t) \/ PIuLd(t)
            \/ PIuSt(t) \/ PCnt(t) \/ PCap(t) \/ PSize(t) \/ PRestoreB(t) \/ PReload(t) \/ PRestoreC(t)
            \/ PushStart(t) \/ ULoadTail(t) \/ UCas(t) \/ ULink(t) \/ UFlLd(t) \/ UFlSt(t) \/ USize(t) \/ UCnt(t)
+           \/ LinkStart(t) \/ LFlLd(t) \/ LFlSt(t) \/ ChainStart(t) \/ CFlag(t) \/ CNext(t) \/ CPush(t)
 Next == \E t \in Threads : Step(t)
 Spec == Init /\ [][Next]_vars
 
@@ -173,7 +231,7 @@ Spec == Init /\ [][Next]_vars
 RetryBound == \A t \in Threads : it[t] <= RetryView
 \* prune everything after the known finding (ABA: a head CAS that succeeds although head was modified since it was read)
 NoAbaSoFar == ~aba
-View == <<shared, pc, oh, nx, it, ot, fb, buf, held, ops, stale, aba, foreign>>
+View == <<shared, pc, oh, nx, it, ot, fb, buf, held, ops, ca, cnext, nlinks, mnext, stale, aba, foreign>>
 
 \* C01
 NoDoubleOwner == \A a, b \in Threads : a # b => OwnedBy(a) \cap OwnedBy(b) = {}
